@@ -121,26 +121,146 @@ Example stratified_short_supply_lengths_differ :
   length (zstrat_subs S [0; 1; 2] [1%nat] draws 2) = 2%nat /\ length (zstrat_vals S [1%nat] 2) = 3%nat.
 Proof. split; reflexivity. Qed.
 
-(* ---- LBFGSB.solve replayed: scipy is the oracle, its observed answer (final vector, final f) is the input ----
-   All floats of one case are scaled by one common denominator (tovec / update only move data), callbacks are a unit type. *)
-Definition zlb_solve (K0 : ktensor Z) (lb : option Z) (x : list Z) (fx : Z) : outcome (ktensor Z) Z Z unit unit :=
-  lbfgsb_solve (ktensor Z) Z Z unit unit (tovec_f Z 0) (update_all Z 0) (fun _ => 0)
-               (fun _ _ _ _ => (x, fx)) (mkKw unit unit (UserCb unit None) tt) K0 lb.
+(* ---- LBFGSB.solve replayed: scipy is the oracle, its observed answer (final vector, final f, warnflag) is the input ----
+   All floats of one case are scaled by one common denominator (tovec / update only move data), callbacks are a unit type.
+   The objective is the constant function "objective of the returned model as the harness evaluates it" (fend): the only place the
+   wrapper itself evaluates the objective is the re-evaluation of the returned model after an abandoned line search. *)
+Definition zlb_solve (K0 : ktensor Z) (lb : option Z) (x : list Z) (fx : Z) (wflag : nat) (fend : Z)
+  : outcome (ktensor Z) Z Z unit unit :=
+  lbfgsb_solve (ktensor Z) Z Z unit unit (tovec_f Z 0) (update_all Z 0) (fun _ => fend)
+               (fun _ _ _ _ => (x, fx, wflag)) (mkKw unit unit (UserCb unit None) tt) K0 lb.
 Definition zfactors_eqb := list_eqb (list_eqb vec_eqb).
-(* observation: the start vector and the number of bound pairs handed to scipy, the factor matrices of the returned model
-   (raw rows), info["final_f"]; the returned model must be scipy's vector read back through update — NOT any other point *)
-Definition zlb_ok (K0 : ktensor Z) (lb : option Z) (x : list Z) (fx : Z)
-           (x0_obs : list Z) (nbounds : nat) (factors_obs : list (list (list Z))) (final_f_obs : Z) : bool :=
-  let o := zlb_solve K0 lb x fx in
+(* observation: the start vector and the number of bound pairs handed to scipy, the factor matrices and weights of the returned
+   model (raw rows), info["final_f"]; the returned model must be scipy's vector read back through update — NOT any other point —
+   and info["final_f"] scipy's value, or the objective of the returned model when warnflag = 2 *)
+Definition zlb_ok (K0 : ktensor Z) (lb : option Z) (x : list Z) (fx : Z) (wflag : nat) (fend : Z)
+           (x0_obs : list Z) (nbounds : nat) (factors_obs : list (list (list Z))) (weights_obs : list Z) (final_f_obs : Z) : bool :=
+  let o := zlb_solve K0 lb x fx wflag fend in
   vec_eqb (tovec_f Z 0 K0) x0_obs && Nat.eqb (length (o_bounds _ _ _ _ _ o)) nbounds &&
+  Nat.eqb nbounds (krank K0 * sum_nat (kshape K0)) &&
   forallb (fun b => match lb, fst b with None, None => true | Some u, Some v => Z.eqb u v | _, _ => false end)
           (o_bounds _ _ _ _ _ o) &&
-  zfactors_eqb (kfactors (o_model _ _ _ _ _ o)) factors_obs && vec_eqb (kweights (o_model _ _ _ _ _ o)) (kweights K0) &&
+  zfactors_eqb (kfactors (o_model _ _ _ _ _ o)) factors_obs && vec_eqb (kweights (o_model _ _ _ _ _ o)) weights_obs &&
   Z.eqb (o_final_f _ _ _ _ _ o) final_f_obs &&
   match lb with None => true | Some b => forallb (fun v => Z.leb b v) (tovec_f Z 0 (o_model _ _ _ _ _ o)) end.
 
-Example zlb_example :   (* 2x1 (+) 3x1 model; scipy answers [9;8;7;6;5]: the returned factors are that vector, column-wise *)
+Example zlb_example :   (* 2x1 (+) 3x1 model; scipy answers [9;8;7;6;5]: the returned factors are that vector, column-wise;
+                           warnflag 0: final_f is scipy's 42; warnflag 2: final_f is the re-evaluated 40 *)
   let K0 := mkK [1] [[[1]; [2]]; [[3]; [4]; [5]]] in
-  zlb_ok K0 (Some 0) [9; 8; 7; 6; 5] 42 [1; 2; 3; 4; 5] 5 [[[9]; [8]]; [[7]; [6]; [5]]] 42 = true /\
-  zlb_ok K0 (Some 0) [9; 8; 7; 6; 5] 42 [1; 2; 3; 4; 5] 5 [[[9]; [8]]; [[7]; [6]; [4]]] 42 = false.
-Proof. split; reflexivity. Qed.
+  zlb_ok K0 (Some 0) [9; 8; 7; 6; 5] 42 0 40 [1; 2; 3; 4; 5] 5 [[[9]; [8]]; [[7]; [6]; [5]]] [1] 42 = true /\
+  zlb_ok K0 (Some 0) [9; 8; 7; 6; 5] 42 0 40 [1; 2; 3; 4; 5] 5 [[[9]; [8]]; [[7]; [6]; [4]]] [1] 42 = false /\
+  zlb_ok K0 (Some 0) [9; 8; 7; 6; 5] 42 2 40 [1; 2; 3; 4; 5] 5 [[[9]; [8]]; [[7]; [6]; [5]]] [1] 40 = true /\
+  zlb_ok K0 (Some 0) [9; 8; 7; 6; 5] 42 2 40 [1; 2; 3; 4; 5] 5 [[[9]; [8]]; [[7]; [6]; [5]]] [1] 42 = false.
+Proof. repeat split; reflexivity. Qed.
+
+(* ---- the float ceil of the GCPSampler default counts as a recorded oracle ----
+   one recorded call of samplers.ceil = (numerator, denominator of the float argument — an exact dyadic rational —, answer).
+   cd_obs calls a b answers with the recorded answer of the first call whose argument is the float quotient a / b (within one
+   rounding: |q - a/b| <= 2^-52 * a/b) and whose answer is the exact ceiling of that float; -1 when no recorded call fits (the
+   configuration computed from -1 then differs from the observed one). *)
+Definition div_close (a b qn qd : Z) : bool :=
+  (0 <? b) && (0 <? qd) && (Z.abs (qn * b - a * qd) * 2 ^ 52 <=? Z.abs (a * qd)).
+Definition ceil_call_fits (a b : Z) (c : Z * Z * Z) : bool :=
+  let '(qn, qd, ans) := c in div_close a b qn qd && (ans =? cdiv qn qd).
+Definition cd_obs (calls : list (Z * Z * Z)) (a b : Z) : Z :=
+  match find (ceil_call_fits a b) calls with Some (_, _, ans) => ans | None => -1 end.
+(* how far the float oracle can be from the exact ceiling: a recorded float q within one rounding of a / b, with a / b < 2^52,
+   has its ceiling within 1 of the exact ceiling of a / b — whatever cd_obs answers (if it answers) is cdiv a b - 1, cdiv a b or
+   cdiv a b + 1 *)
+Lemma mul_lt_cancel x y m : 0 < m -> x * m < y * m -> x < y.
+Proof. intros Hm H. nia. Qed.
+Theorem ceil_oracle_bound a b qn qd :
+  0 <= a -> 0 < b -> a < b * 2 ^ 52 -> div_close a b qn qd = true ->
+  cdiv a b - 1 <= cdiv qn qd <= cdiv a b + 1.
+Proof.
+  intros Ha Hb Hx H. unfold div_close in H.
+  apply andb_prop in H as [H H3]. apply andb_prop in H as [_ H2].
+  apply Z.ltb_lt in H2. apply Z.leb_le in H3.
+  rewrite (Z.abs_eq (a * qd)) in H3 by nia.
+  assert (Hd : Z.abs (qn * b - a * qd) < b * qd).
+  { apply (mul_lt_cancel _ _ (2 ^ 52)); [reflexivity|]. nia. }
+  apply Z.abs_lt in Hd as [Hd1 Hd2].
+  pose proof (cdiv_spec a b Hb) as [C1 C2].
+  pose proof (cdiv_spec qn qd H2) as [Q1 Q2].
+  set (c := cdiv a b) in *. set (c' := cdiv qn qd) in *.
+  split.
+  - assert (E1 : (c - 2) * (b * qd) < c' * (b * qd)) by nia.
+    assert (c - 2 < c') by (apply (mul_lt_cancel _ _ (b * qd)); nia). lia.
+  - assert (E1 : (c' - 1) * (b * qd) < (c + 1) * (b * qd)) by nia.
+    assert (c' - 1 < c + 1) by (apply (mul_lt_cancel _ _ (b * qd)); nia). lia.
+Qed.
+Theorem cd_obs_bound calls a b : 0 <= a -> 0 < b -> a < b * 2 ^ 52 ->
+  cd_obs calls a b = -1 \/ cdiv a b - 1 <= cd_obs calls a b <= cdiv a b + 1.
+Proof.
+  intros Ha Hb Hx. unfold cd_obs. destruct (find (ceil_call_fits a b) calls) as [[[qn qd] ans]|] eqn:E; [right|left; reflexivity].
+  apply find_some in E as [_ E]. cbn [ceil_call_fits] in E. apply andb_prop in E as [E1 E2].
+  apply Z.eqb_eq in E2. subst ans. now apply ceil_oracle_bound.
+Qed.
+(* the recorded calls are exactly the one quotient the table asks for (none for explicit requests / rejected rows) *)
+Definition ceil_queries_ok (calls : list (Z * Z * Z)) (q : option (Z * Z)) : bool :=
+  match q, calls with
+  | None, [] => true
+  | Some (a, b), [c] => ceil_call_fits a b c
+  | _, _ => false
+  end.
+(* a fitting call with an exactly representable quotient answers the exact ceiling *)
+Lemma cd_obs_exact a b ans calls : 0 < b -> cd_obs ((a, b, ans) :: calls) a b = (if ans =? cdiv a b then ans else cd_obs calls a b).
+Proof.
+  intros Hb. unfold cd_obs. cbn [find ceil_call_fits]. unfold div_close.
+  replace (0 <? b) with true by (symmetry; apply Z.ltb_lt; lia).
+  replace (a * b - a * b) with 0 by lia. cbn [Z.abs Z.mul andb].
+  replace (0 <=? Z.abs (a * b)) with true by (symmetry; apply Z.leb_le; lia). cbn [andb].
+  destruct (ans =? cdiv a b); reflexivity.
+Qed.
+Example cd_obs_example :     (* ceil(2000/100): the float 20.0 = 20/1; ceil(10*6/7): the float 8.571428571428571 *)
+  cd_obs [(20, 1, 20)] 2000 100 = 20 /\ cd_obs [(20, 1, 20)] 2001 100 = -1 /\ cd_obs [(20, 1, 21)] 2000 100 = -1 /\
+  cd_obs [(4825285315039817, 562949953421312, 9)] 60 7 = 9.
+Proof. repeat split; reflexivity. Qed.
+
+(* ---- comparisons of exact observations that used to be decided in the harness ---- *)
+(* a request for nonzero samples of a tensor that stores no nonzero has to be rejected (numpy.random.choice(0, n) raises) *)
+Definition strat_rejected (S : sparse Z) (cn : nat) : bool := Nat.ltb 0 cn && Nat.eqb (nnz S) 0.
+(* observed array shapes *)
+Definition shapes_eqb := list_eqb nvec_eqb.
+(* observation bits that are identities of Python objects / array_equal of captured arrays: all must hold *)
+Definition obs_bits (bs : list bool) : bool := forallb (fun b => b) bs.
+(* a bound check on one observed rational against an optional lower bound *)
+Definition qabove_b (lb : option Qc) (x : Qc) : bool := match lb with None => true | Some b => qleb b x end.
+(* the user's callback runs (inside the monitor) exactly when scipy completed an iteration in one of the solves *)
+Definition callback_seen_ok (called : option bool) (nits : list nat) : bool :=
+  match called with None => true | Some c => Bool.eqb c (existsb (fun n => Nat.leb 1 n) nits) end.
+
+(* ---- how many subscript rows samplers.zeros draws for a request (the oversampling rule) ----
+     ntmp    = np.ceil(samples * data_size / num_zeros)        -- some draws will hit nonzeros
+     samples = int(np.ceil(over_sample_rate * ntmp))           -- margin of safety, over_sample_rate = 1.1 (a float)
+   The two float computations (quotient, product) are oracles recorded by the harness (every np.ceil call inside pyttb.gcp.samplers:
+   float argument as an exact rational, answer); zero_draw_rows replays the rule with the recorded answers, a recorded call fits
+   when its argument is the quotient / product the rule asks for within one rounding and its answer the exact ceiling of that float.
+   With this the number of rows behind the open finding C13-S1 (short zero supply) is tied to the request: fewer draws than the rule
+   prescribes are a mismatch, not a known finding. *)
+Definition mul_close (pn pd m qn qd : Z) : bool :=
+  (0 <? pd) && (0 <? qd) && (Z.abs (qn * pd - pn * m * qd) * 2 ^ 52 <=? Z.abs (pn * m * qd)).
+Definition RATE_N : Z := 2476979795053773.           (* the float 1.1 = RATE_N / 2^51 *)
+Definition RATE_D : Z := 2 ^ 51.
+Definition zero_draw_rows (calls : list (Z * Z * Z)) (size numz req : Z) : Z :=
+  let ntmp := cd_obs calls (req * size) numz in
+  match find (fun c => let '(qn, qd, ans) := c in mul_close RATE_N RATE_D ntmp qn qd && (ans =? cdiv qn qd)) calls with
+  | Some (_, _, ans) => ans
+  | None => -1
+  end.
+(* the rule in exact arithmetic for a rate pn / pd >= 1: at least as many rows as zeros requested, for every request *)
+Definition rows_exact (pn pd size numz req : Z) : Z := cdiv (pn * cdiv (req * size) numz) pd.
+Theorem rows_exact_ge_request pn pd size numz req :
+  0 < pd <= pn -> 0 < numz <= size -> 0 <= req -> req <= rows_exact pn pd size numz req.
+Proof.
+  intros Hp Hz Hr. unfold rows_exact.
+  pose proof (cdiv_spec (req * size) numz ltac:(lia)) as [_ H1].
+  pose proof (cdiv_spec (pn * cdiv (req * size) numz) pd ltac:(lia)) as [_ H2].
+  assert (Hc : req <= cdiv (req * size) numz) by nia.
+  nia.
+Qed.
+Example zero_draw_rows_example :   (* 3 zeros requested from a 2x3 tensor with 2 zeros: ceil(9.0) = 9, ceil(1.1 * 9 = 9.9) = 10 rows *)
+  zero_draw_rows [(9, 1, 9); (5573204538870989, 562949953421312, 10)] 6 2 3 = 10 /\
+  zero_draw_rows [(9, 1, 9); (5573204538870989, 562949953421312, 9)] 6 2 3 = -1 /\
+  zero_draw_rows [(9, 1, 9)] 6 2 3 = -1 /\ rows_exact 11 10 6 2 3 = 10.
+Proof. repeat split; reflexivity. Qed.
